@@ -78,6 +78,7 @@ theorem elements_vals {src : Val} {els : List Val} (h : elements src = .ok els) 
   | some _ => simp [elements] at h
   | left _ _ => simp [elements] at h
   | right _ _ => simp [elements] at h
+  | lam _ _ _ => simp [elements] at h
 
 theorem duplicate_spec {c : Cfg} (ok : CfgOk c) {v r : Val} (h : duplicate c v = .ok r) :
     r = v ∧ (v.consistent = true → ∀ k, ticketSum k v = 0) := by
